@@ -66,6 +66,9 @@ type CallSite struct {
 }
 
 func NewPkgIndex(m *Module, p *pkgT) *PkgIndex {
+	recordAllFuncs(p, pkgFuncs(m, p))
+	// helpers that did not exist on the pinned tree are expanded into their callers first (inline.go)
+	normalisePackage(m, p)
 	ix := &PkgIndex{M: m, Pkg: p, Funcs: pkgFuncs(m, p), Parent: map[*ast.FuncLit]*FuncInfo{}, Use: map[*ast.FuncLit]LitUse{},
 		OfLit: map[*ast.FuncLit]*FuncInfo{}, Calls: map[*types.Func][]CallSite{}, Escapes: map[*types.Func][]token.Pos{}, fgs: map[*FuncInfo]*FG{}}
 	info := p.TypesInfo
